@@ -1,8 +1,23 @@
 import FmpRpc.Proofs.TransportInv
 import FmpRpc.Proofs.TransportInvA5
+import FmpRpc.Proofs.TransportInvSize
 /-
-  C20 — each RPC is accounted exactly once (record counts; the size formula is
-  checked by the correspondence run against the write log).
+  C20 — each RPC is accounted exactly once: record counts, and — for CALL
+  records — the size formula.
+
+  Size of a CALL record: PROVED here (`call_record_size`, `record_size`,
+  `record_size_final`, with `counted_replies_were_delivered` and the `enc_size_*`
+  theorems saying what the two summands are).  The model carries the size as ghost
+  state: `St.fsize x` (bytes of the frame of send `x`) and `St.psize p` (content
+  length of a response frame with payload `p`) are parameters of a run that no
+  step modifies; `Caller.encSize` is what `EncodeAndWrite` returned, `Caller.inc`
+  the replies whose `IncrementSize` ran before `Finish`, `Caller.recSize` the Size
+  as stored.  The stored Size is
+      encSize + Σ psize over the replies looked up for the call before Finish
+  and a reply that finds the call in the table AFTER Finish (the deferred
+  `RemoveCall` has not run yet) is not counted: `Finish` stored a copy.
+  The sizes of cancel / notify / served-call records are NOT modelled: they are
+  still only checked by the correspondence run against the write log.
 
   Argument side: NO hypothesis any more.  `dispatch.Call` returns early when
   `compressData` fails on the argument of a compressed call, and that return
@@ -85,6 +100,112 @@ theorem cfail_set_only_by_compress_failure (s s' : St) (a : Act) (c : Nat) (hs :
   step_cases a hs
   all_goals (try simp at h1)
   all_goals (first | done | (exfalso; grind) | grind)
+
+/-! ### the size of the call record -/
+
+/-- (S1) the Size of the call record, in every reachable state: before the
+    record is finished it holds what the receive loop has added so far (the
+    content lengths of the replies looked up for this call); once finished
+    (`records = 1`, and `records ≤ 1` always) it additionally holds the size
+    `EncodeAndWrite` returned -/
+theorem call_record_size (s : St) (hr : Reachable s) (c : Nat) :
+    (s.callers c).recSize =
+      (if (s.callers c).records = 1 then (s.callers c).encSize else 0) +
+        ((s.callers c).inc.map s.psize).sum :=
+  ((ZInv_reach s hr).loc c).size
+
+/-- (S2) a call that went into `dispatch.Call`, did not end in `compressData`
+    and has returned: its one record has Size = what `EncodeAndWrite` returned
+    + the content lengths of the replies counted before it was finished -/
+theorem record_size (s : St) (hr : Reachable s) (c : Nat) (o : Out) :
+    (s.callers c).pc = .ret o → (s.callers c).cfail = false → (s.callers c).seq ≠ -1 →
+    (s.callers c).recSize = (s.callers c).encSize + ((s.callers c).inc.map s.psize).sum := by
+  intro hpc hcf hq
+  have h1 := (one_record_per_call s hr c).2.1 o hpc hq
+  rw [hcf] at h1
+  have h2 := call_record_size s hr c
+  rw [if_pos (by simpa using h1)] at h2
+  exact h2
+
+/-- (S3) the stored Size is final: once the record is finished no step changes
+    it, nor the list of counted replies, nor the encoder's size — a reply that
+    is looked up afterwards (the call is still in the table until the deferred
+    `RemoveCall`) increments a record whose copy has already been stored -/
+theorem record_size_final (s s' : St) (hr : Reachable s) (a : Act) (c : Nat) (hs : step s a = some s')
+    (h1 : (s.callers c).records = 1) :
+    (s'.callers c).recSize = (s.callers c).recSize ∧ (s'.callers c).inc = (s.callers c).inc ∧
+    (s'.callers c).encSize = (s.callers c).encSize ∧ (s'.callers c).records = 1 :=
+  finished_frame s s' a (CInv_reach s hr) hs c h1
+
+/-- … in particular the lookup of a late reply for a finished call moves the
+    receive loop on and leaves the caller's record alone -/
+theorem late_reply_not_counted (s s' : St) (c : Nat) (q : Int) (p : Nat) (ae : Bool)
+    (hr : s.r = .respLookup q p ae) (hp : s.pending q = some c) (h1 : (s.callers c).records = 1)
+    (hs : step s .rLookup = some s') :
+    s'.r = .respDecode c q p ae ∧ s'.callers = s.callers := by
+  simp only [step, hr, hp] at hs
+  rw [if_neg (by omega)] at hs
+  injection hs with hs; subst hs
+  exact ⟨rfl, rfl⟩
+
+/-- … while the lookup of a reply for a call whose record is not finished yet
+    adds exactly that reply's content length -/
+theorem early_reply_counted (s s' : St) (c : Nat) (q : Int) (p : Nat) (ae : Bool)
+    (hr : s.r = .respLookup q p ae) (hp : s.pending q = some c) (h0 : (s.callers c).records = 0)
+    (hs : step s .rLookup = some s') :
+    (s'.callers c).recSize = (s.callers c).recSize + s.psize p ∧ (s'.callers c).inc = (s.callers c).inc ++ [p] := by
+  simp only [step, hr, hp] at hs
+  rw [if_pos h0] at hs
+  injection hs with hs; subst hs
+  simp [setCaller]
+
+/-- (S4) every reply counted in the record is a response the peer delivered
+    with the call's own seqno -/
+theorem counted_replies_were_delivered (s : St) (hr : Reachable s) (c : Nat) (p : Nat)
+    (hp : p ∈ (s.callers c).inc) :
+    ∃ ae, Evt.delivered (.resp (s.callers c).seq p ae) ∈ s.hist :=
+  (ZHInv_reach s hr).incd c p hp
+
+/-- (S5) what `EncodeAndWrite` returned: the length of the frame of the call's
+    own send `x` when `encodeFrame` accepted it (the caller is in the hand-off
+    select only in that case, and waits on the encoder's result channel either
+    way), 0 when it did not; 0 as long as the encoder has not run, and 0 for a
+    call that ended in `compressData` -/
+theorem enc_size_hand (s : St) (hr : Reachable s) (c x : Nat) (hpc : (s.callers c).pc = .hand x) :
+    (s.sends x).who = c ∧ (s.sends x).kind = .call ∧ (s.sends x).fits = true ∧
+    (s.callers c).encSize = s.fsize x := by
+  have hS := SInv_reach s hr
+  obtain ⟨-, hw, hk, hwho, -, -⟩ := hS.cHand c x hpc
+  exact ⟨hwho, hk, (hS.fitsW x (.inl hw)).1, ((ZInv_reach s hr).loc c).hand x hpc⟩
+
+theorem enc_size_sel1 (s : St) (hr : Reachable s) (c x : Nat) (hpc : (s.callers c).pc = .sel1 x) :
+    (s.callers c).encSize = if (s.sends x).fits then s.fsize x else 0 :=
+  ((ZInv_reach s hr).sel1 c x hpc).2
+
+theorem enc_size_zero (s : St) (hr : Reachable s) (c : Nat)
+    (h : (s.callers c).pc.preEnc = true ∨ (s.callers c).cfail = true) : (s.callers c).encSize = 0 := by
+  rcases h with h | h
+  · exact ((ZInv_reach s hr).loc c).enc0 h
+  · exact ((ZInv_reach s hr).loc c).cfl h
+
+set_option maxHeartbeats 1000000 in
+/-- … and it is fixed by the encoding step: whatever happens afterwards, the
+    value does not change -/
+theorem enc_size_stable (s s' : St) (a : Act) (c : Nat) (hs : step s a = some s')
+    (h : (s.callers c).pc.preEnc = false) : (s'.callers c).encSize = (s.callers c).encSize := by
+  step_cases a hs
+  all_goals (try simp)
+  all_goals (first | done | grind)
+
+/-- the encoding step itself: `cEnc c fits` allocates the send `x = s.nextSend`
+    and sets `encSize` to the length of its frame, or to 0 when it does not fit -/
+theorem enc_size_step (s s' : St) (c : Nat) (fits : Bool) (hs : step s (.cEnc c fits) = some s') :
+    (s'.sends s.nextSend).who = c ∧ (s'.sends s.nextSend).kind = .call ∧ (s'.sends s.nextSend).fits = fits ∧
+    (s'.callers c).encSize = if fits then s.fsize s.nextSend else 0 := by
+  simp only [step] at hs
+  split at hs
+  · split at hs <;> (injection hs with hs; subst hs; simp_all [newSend, failedSend, setSend, setCaller])
+  · simp at hs
 
 /-- one record per cancellation sent: as many cancel records as invocations of
     `handleCancel`, once the caller is past it -/
